@@ -301,7 +301,7 @@ def run(ctx):
         k = n % 4
         schemas = None
         if k == 3:
-            pg = gen.PropGen(rng, maxdepth=2, max_width=rng.choice((1, 2, 3)), expose_disj_aliases=0.0)
+            pg = gen.PropGen(rng, maxdepth=2, max_width=rng.choice((1, 2, 3)), expose_disj_aliases=0.0, const_preds=0.05)
             p, sch, bound = pg.make(n=n)
             text = A.render_prop(p)
             o = hplapi.outcome(PP.parse, text)
